@@ -128,11 +128,12 @@ def validate_trace(module, trace, tag="PROPFAIL", timeout=1800, env_extra=None):
     rejected = extract_tuples(out, "REJECTED at")
     fails = extract_tuples(out, tag)
     drift = extract_tuples(out, "DRIFT")
+    specfail = extract_tuples(out, "SPECFAIL")
     tool_error = None
     if not accepted and not rejected:
         tool_error = out[-3000:]
     return dict(module=module, trace=trace, rc=rc, wall=dt, generated=gen, distinct=dist, accepted=accepted,
-                rejected=rejected, fails=fails, drift=drift, tool_error=tool_error, out_tail=out[-1500:] if (rc != 0 and not fails) else "")
+                rejected=rejected, fails=fails, drift=drift, specfail=specfail, tool_error=tool_error, out_tail=out[-1500:] if (rc != 0 and not fails) else "")
 
 # ---------------------------------------------------------------- model checking
 def model_check(module, cfg, workers=8, timeout=3600, simulate=None, depth=None, extra=None, mem="8g", tags=()):
